@@ -61,12 +61,13 @@ def _preread(t, what):
 PREREADS = ["none", "pos", "quat", "se3", "str"]
 
 
-def execute(case, clock, built, order_rots, pre=("none", "none")):
+def execute(case, clock, built, order_rots, pre=("none", "none"), same=False):
     """run the real associate_trajectories on gamma(case); return the alpha-abstracted outcome"""
     from evo.core import sync
     rots = order_rots
+    same = bool(same and case["A"] == case["B"])         # one object passed for both parameters (a trajectory against itself, shifted)
     ta = _traj(case["A"], clock, 100, built[0], rots)
-    tb = _traj(case["B"], clock, 200, built[1], rots)
+    tb = ta if same else _traj(case["B"], clock, 200, built[1], rots)
     _preread(ta, pre[0])
     _preread(tb, pre[1])
     sa, sb = geom.snapshot(ta), geom.snapshot(tb)
@@ -80,7 +81,7 @@ def execute(case, clock, built, order_rots, pre=("none", "none")):
     except Exception as e:  # any other exception type is an outcome P does not allow
         return {"kind": "raise", "exc": type(e).__name__, "unchanged": True}
     unchanged = geom.snapshot(ta) == sa and geom.snapshot(tb) == sb
-    o = {"kind": "ok", "a": _rows(oa, case["A"], clock, 100, rots), "b": _rows(ob, case["B"], clock, 200, rots),
+    o = {"kind": "ok", "a": _rows(oa, case["A"], clock, 100, rots), "b": _rows(ob, case["B"], clock, 100 if same else 200, rots),
          "unchanged": unchanged}
     # mutate the outputs, the inputs must still be unchanged (independence; also C16)
     try:
@@ -101,7 +102,7 @@ def _exec_job(job):
     built = builts[(n + v + seed) % 4]
     rots = geom.O24[(n + seed) % 24:] + geom.O24[:(n + seed) % 24]
     pre = (PREREADS[(n // 4 + v) % 5], PREREADS[(n // 20 + 2 * v) % 5])
-    return execute(c, geom.CLOCKS[k], built, rots, pre), k, built, pre
+    return execute(c, geom.CLOCKS[k], built, rots, pre, same=(n + v) % 2 == 0), k, built, pre
 
 
 def random_case(rng, maxn):
@@ -151,7 +152,7 @@ def run(rep, tier, seed):
             tid = "m%d.%d" % (n, v)
             t = {"id": tid, "A": c["A"], "B": c["B"], "md": c["md"], "off": c["off"], "o": o}
             traces.append(t)
-            by_id[tid] = (c, {"clock": [clock.t0, clock.dt], "built": built, "pre": pre}, o)
+            by_id[tid] = (c, {"clock": [clock.t0, clock.dt], "built": built, "pre": pre, "same": (n + v) % 2 == 0}, o)
             mo = dict(c["m"])
             if mo != o:
                 rep.drifted("associate(%s,%s,md=%d,off=%d): model %s, code %s" % (c["A"], c["B"], c["md"], c["off"], mo, o))
@@ -244,7 +245,7 @@ def replay(rep, path):
     d = body["detail"]
     c, g = d["case"], d["gamma"]
     clock = geom.Clock(*g["clock"])
-    o = execute(c, clock, tuple(g.get("built", ("se3", "se3"))), geom.O24, tuple(g.get("pre", ("none", "none"))))
+    o = execute(c, clock, tuple(g.get("built", ("se3", "se3"))), geom.O24, tuple(g.get("pre", ("none", "none"))), same=g.get("same", False))
     t = {"id": "replay", "A": c["A"], "B": c["B"], "md": c["md"], "off": c["off"], "o": o}
     rej = core.validate("sync", "Trace_Sync", [t])
     print("observed:", o)
